@@ -47,3 +47,9 @@ def val_bits(s: "seq[int]", p: "int", n: "int") -> "int":
 def BufOK(b: "arr", s: "seq[int]", a: "int") -> "bool":
     """writer state: b packs s and the cursor is at the end"""
     return Rep(b, s) and a == len(s)
+
+
+@pure
+def DecPre(b: "arr", s: "seq[int]", a: "int") -> "bool":
+    """reader state: s is the complete bit image of the byte string b, the cursor is a valid position"""
+    return Rep(b, s) and a >= 0 and len(s) == 8 * arr_len(b)
